@@ -11,3 +11,5 @@ import OlVerif.Props.C14
 #print axioms OlVerif.C14.ol_run_loaded
 #print axioms OlVerif.C14.lower_import_plan
 #print axioms OlVerif.C14.plan_is_model
+#print axioms OlVerif.C14.lower_from_names
+#print axioms OlVerif.C14.lower_from_plan
